@@ -342,7 +342,7 @@ fn gen_mismatch(run: &mut Run, seed: u64, thorough: bool) {
                 if cfg.psks.is_empty() && rep % 2 == 0 && pi % 2 == 0 {
                     cfg.psks = vec![0];
                 }
-                for kind in 0..6 {
+                for kind in 0..7 {
                     let mut sc = Sc::new();
                     if run_mismatch(&cfg, kind, None, &mut sc, &mut r) {
                         run.add("hs", format!("C08 mismatch kind {kind} {}", cfg.name()), sc);
@@ -435,6 +435,22 @@ fn run_mismatch(cfg: &HsCfg, kind: usize, slot: Option<usize>, sc: &mut Sc, r: &
             } else if spec_r.rs.is_some() {
                 spec_r.rs = Some(pub_x.clone());
                 "responder's copy of the initiator static"
+            } else {
+                return false;
+            }
+        },
+        6 => {
+            // the same point in its other encoding: X25519 ignores the top bit of a u-coordinate, so the DH
+            // outputs agree, but the two parties do not hold the same pre-shared key bytes
+            if cfg.dh != "25519" || cfg.res_i == "toy" {
+                return false;
+            }
+            if let Some(k) = spec_i.rs.as_mut() {
+                k[31] ^= 0x80;
+                "top bit of the initiator's copy of the responder static"
+            } else if let Some(k) = spec_r.rs.as_mut() {
+                k[31] ^= 0x80;
+                "top bit of the responder's copy of the initiator static"
             } else {
                 return false;
             }
@@ -532,7 +548,7 @@ fn gen_transport(run: &mut Run, prop: &str, seed: u64, thorough: bool) {
                     run_transport(&cfg, &mut sc);
                     run.add("transport", format!("{prop} transport {n} {res} #{rep}"), sc);
                 }
-                if matches!(prop, "C01" | "C02" | "C04" | "C05" | "C09" | "C16" | "C15" | "C10" | "C19" | "C14" | "C06" | "C07") {
+                if matches!(prop, "C01" | "C02" | "C04" | "C05" | "C09" | "C11" | "C16" | "C15" | "C10" | "C19" | "C14" | "C06" | "C07") {
                     let mut sc = Sc::new();
                     run_stateless(&cfg, &mut sc);
                     run.add("stateless", format!("{prop} stateless {n} {res} #{rep}"), sc);
